@@ -18,9 +18,9 @@ type Tape struct {
 	Engine  string                     `json:"engine"`
 	RunSeed uint64                     `json:"run_seed"`
 	NKDC    int                        `json:"nkdc"`
-	Limit   string                     `json:"limit"` // tcp-only | tcp-first | udp-first
-	Beh     map[string]world.Behaviour `json:"beh"`   // "udp!0" ... "tcp!2"
-	Phase   string                     `json:"phase"` // as | tgs | kpasswd (the behaviours then apply to the kpasswd servers)
+	Limit   string                     `json:"limit"`            // tcp-only | tcp-first | udp-first
+	Beh     map[string]world.Behaviour `json:"beh"`              // "udp!0" ... "tcp!2"
+	Phase   string                     `json:"phase"`            // as | tgs | kpasswd (the behaviours then apply to the kpasswd servers)
 	Refuse  int                        `json:"refuse,omitempty"` // kpasswd: result code with which the server refuses by policy
 }
 
@@ -53,11 +53,11 @@ func Meta() core.Meta {
 		WorkloadProbes: []string{"first-transport-all-dead-second-good", "tcp-reply-fragmented-in-length-prefix", "krb-error-and-good-coexist", "too-big-then-tcp", "nothing-works", "tcp-only-udp-alive", "close-inside-prefix", "kpasswd-exchange", "kpasswd-refused-by-policy"},
 		Components: map[string]string{
 			"client.Login, GetServiceTicket, ASExchange, TGSExchange, sendToKDC, sendKDCTCP/UDP, dialSendTCP/UDP, sendTCP/UDP, checkForKRBError, config.GetKDCs, krb5.conf parser": "real",
-			"net in client/network.go":               "shim: simulated transport (connect, segments, datagrams, deadlines on the fake clock)",
-			"KDC":                                    "stub: refkdc reference model",
+			"net in client/network.go": "shim: simulated transport (connect, segments, datagrams, deadlines on the fake clock)",
+			"KDC":                      "stub: refkdc reference model",
 			"client.ChangePasswd, sendToKPasswd, kadmin.ChangePasswdMsg, kadmin.Reply (anchor v8/client/passwd.go)": "real",
-			"kpasswd servers": "stub: refkdc.KPasswd, a reference implementation of RFC 3244 over the reference KDC's database",
-			"math/rand global source (server order)": "real, seeded per run",
+			"kpasswd servers":                            "stub: refkdc.KPasswd, a reference implementation of RFC 3244 over the reference KDC's database",
+			"math/rand global source (server order)":     "real, seeded per run",
 			"DNS SRV discovery of KDCs (dns_lookup_kdc)": "not simulated: KDCs are always configured",
 		},
 		Assumptions: []string{
